@@ -2,7 +2,7 @@
    Directives: ExtrOcamlBasic only (bool, option, list, prod, unit, sumbool -> OCaml natives). No Extract Constant. *)
 From Coq Require Extraction.
 From Coq Require Import ExtrOcamlBasic.
-From ASV Require Import Base.Util Base.Msg Base.Log Model.Store Spec.StoreSpec Model.McSys Spec.RefSys Model.Search Model.McRun Model.Script Model.DebugFmt Model.McInst Model.Sim Base.TimeF64 Model.SimInst.
+From ASV Require Import Base.Util Base.Msg Base.Log Model.Store Spec.StoreSpec Model.McSys Spec.RefSys Model.Search Model.McRun Model.Script Model.DebugFmt Model.McInst Model.Sim Base.TimeF64 Model.SimInst Model.Predicates Model.PredInst.
 Extraction Language OCaml.
 Separate Extraction
   Util.nins Util.nsort
@@ -13,6 +13,7 @@ Separate Extraction
   McInst.i_cb_run McInst.i_run McInst.i_run_from_states McInst.i_state_eqb McInst.i_take_choice McInst.i_all_choices
   McInst.i_get_state McInst.i_set_state McInst.r_cb_run McInst.r_run McInst.r_take_choice McInst.r_all_choices McInst.r_get_state
   McInst.c_ops McInst.a_ops
+  PredInst.pred_battery
   SimInst.y_op SimInst.y_sys0 SimInst.y_dump SimInst.draws_of TimeF64.f_add TimeF64.f_sub TimeF64.f_mul TimeF64.f_div TimeF64.f_lt TimeF64.f_le McInst.clock_of Script.pstate0 McSys.net_send McSys.net_apply McSys.alternatives
   DebugFmt.debug_trace
   BinNat.N.leb BinNat.N.add BinNat.N.mul BinNat.N.eqb BinNat.N.compare.
